@@ -457,6 +457,20 @@ pub fn dump_resume<T: Item, I: Iterator<Item = T>>(w: &mut String, k: usize, las
     w.push_str(" all");
     w.push_str(if it.all(|_| true) { " T" } else { " F" });
     put_opt_tup(w, it.next().map(|t| t.to_vec()));
+
+    // longer jumps (across several rows of the small shapes): `nth(j)` then `next()`, `skip(j).next()`, `step_by(3)`
+    for j in [2usize, 3, 5, 7] {
+        let mut it = get(w);
+        let _ = write!(w, " nth{}", j);
+        put_opt_tup(w, it.nth(j).map(|t| t.to_vec()));
+        put_opt_tup(w, it.next().map(|t| t.to_vec()));
+        let it = get(w);
+        let _ = write!(w, " skip{}", j);
+        put_opt_tup(w, it.skip(j).next().map(|t| t.to_vec()));
+    }
+    let it = get(w);
+    w.push_str(" step3");
+    put_tups(w, &vecs(it.step_by(3).collect::<Vec<_>>()));
 }
 
 /// the operations of one array kind (state: registers `a` and `b`); a panic unwinds to `step`
